@@ -103,7 +103,12 @@ def nontrivial(case):
 def run(tier, seed):
     t0 = time.time()
     rng = random.Random(seed)
-    obligations = C.proof_obligations("C15", MODULE, THEOREMS) + C.inventory_obligation()
+    obligations = C.proof_obligations("C15", MODULE, THEOREMS)
+    pending_failure = None
+    try:
+        obligations += C.inventory_obligation(with_dtrait=True)
+    except C.CheckFailure as pf:
+        pending_failure = pf          # look for a concrete failing input first
     cases = [gen_case(rng) for _ in range(160 if tier == "quick" else 900)]
     impl, model = D.both(CRATE, cases)
     bad = [i for i, c in enumerate(cases) if proj_kinds(c, impl[i]) != proj_kinds(c, model[i])]
@@ -146,6 +151,8 @@ def run(tier, seed):
         C.write_evidence("C15", tier, seed, cov, time.time() - t0, 1)
         C.violation("C15", path)
         return 1
+    if pending_failure is not None:
+        raise pending_failure
     C.write_evidence("C15", tier, seed, cov, time.time() - t0, 0,
                      assumptions=["model/implementation agreement on the generated cases only; the default body is the harness' parametric one"])
     print(f"C15: {len(obligations)} theorems closed; {len(cases)} co-executions agree ({time.time()-t0:.1f}s)")
